@@ -35,7 +35,7 @@ static void c20_translate (const char *path) {
 void harness (void) {
   int failed = 1;
 #ifdef REPLAY
-  char path[64] = "/tmp/c20-replay-XXXXXX", cmd[256];
+  char path[64] = "/tmp/c20-replay-XXXXXX", cmd[512];
   int fd = mkstemp (path);
   if (fd >= 0) close (fd);
   pid_t pid = fork ();
@@ -48,7 +48,12 @@ void harness (void) {
   if (!failed) {
     snprintf (cmd, sizeof (cmd), "gcc -std=gnu11 -fsyntax-only -x c %s", path);
     failed = system (cmd) != 0;
-    if (failed) fprintf (stderr, "REPLAY: the C compiler rejects the emitted translation unit\n");
+    if (failed) fprintf (stderr, "REPLAY: gcc rejects the emitted translation unit\n");
+    if (!failed) {
+      snprintf (cmd, sizeof (cmd), "cp %s %s.c && goto-cc -std=gnu11 -c -o %s.gb %s.c; rc=$?; rm -f %s.c %s.gb; exit $rc", path, path, path, path, path, path);
+      failed = system (cmd) != 0;
+      if (failed) fprintf (stderr, "REPLAY: goto-cc rejects the emitted translation unit\n");
+    }
   }
 #endif
   unlink (path);
